@@ -14,6 +14,13 @@ int main(void)
       DelMatrix(&pf); DelMatrix(&pr); DelMatrix(&pdf); DelMatrix(&pred);
       initMatrix(&pf); initMatrix(&pr); initMatrix(&pdf); initMatrix(&pred);
       LDAPrediction(xt, m, pf, pr, pdf, pred); pr_matrix("pred_test", pred); pr_matrix("score_test", pr);
+      reuse_mask = 0;
+      { /* the same prediction into outputs that already hold the results of the training objects / junk */
+        matrix *k1 = dup_matrix(pr), *k2 = dup_matrix(pred);
+        LDAPrediction(x, m, pf, pr, pdf, pred); LDAPrediction(xt, m, pf, pr, pdf, pred); RB(0, same_m(pr, k1) && same_m(pred, k2));
+        junk_m(pf); junk_m(pr); junk_m(pdf); junk_m(pred); LDAPrediction(xt, m, pf, pr, pdf, pred); RB(0, same_m(pr, k1) && same_m(pred, k2));
+        DelMatrix(&k1); DelMatrix(&k2); }
+      pr_long("reuse_bad", reuse_mask);
       DelMatrix(&pf); DelMatrix(&pr); DelMatrix(&pdf); DelMatrix(&pred);
       DelLDAModel(&m); DelMatrix(&x); DelMatrix(&y); DelMatrix(&xt);
     }
